@@ -11,7 +11,8 @@ out = ["# Seeded property-breaking changes (from independent sub-agents; each co
 for d in rows:
     out.append(f"| {d['id']} | {d['property']} | {d['needs'].replace('|', '/')} | {d['detected_by'].replace('|', '/')} |")
 out.append("")
-first = sum(1 for d in rows if "only after" not in d["detected_by"])
+STRENGTHENED = ("only after", "after reading the", "shortly before this change")
+first = sum(1 for d in rows if not any(x in d["detected_by"] for x in STRENGTHENED))
 out.append(f"{len(rows)} changes; {first} were caught by the check as it stood, {len(rows) - first} only after the check (model, universe or driver) was strengthened - "
            "each such strengthening is described in the row.")
 open("/verif/seeded/INDEX.md", "w").write("\n".join(out) + "\n")
